@@ -6,6 +6,8 @@ OnlyFalse == {FALSE}
 \* rows with few runs whose changing elements sit around the make-up boundaries (for widths above 64)
 RowOf(C) == [i \in 1..W |-> IF (Cardinality({c \in C : c <= i - 1}) % 2) = 0 THEN 1 ELSE 0]   \* C: set of changing positions
 Marks == {0, 1, 2, 62, 63, 64, 65, 66, 127, 128, 129, 130, W - 2, W - 1} \cap (0..(W - 1))
+MarksQ == {0, 1, 63, 64, 65, 128, 129, W - 1} \cap (0..(W - 1))
+SparseRowsQ == {RowOf(C) : C \in {D \in SUBSET MarksQ : Cardinality(D) <= 2}}
 SparseRows == {RowOf(C) : C \in {D \in SUBSET Marks : Cardinality(D) <= 2}}
 SparseRows3 == {RowOf(C) : C \in {D \in SUBSET Marks : Cardinality(D) <= 3}}
 ====
